@@ -206,6 +206,10 @@ def run(tier, seed):
             chk.count("built_and_consistent")
         if len(chk.samples) < 5:
             chk.sample({"kind": kind, "options": opts, "module_head": text[:300], "asn1c_rc": rc})
+    nvalid = sum(1 for r in recs if r["kind"] == "valid")
+    nrej = chk.counters.get("valid_module_rejected_with_diagnostic", 0)
+    if nvalid and nrej * 2 > nvalid:
+        chk.inconcl("more than half of the valid modules were rejected (%d of %d): nothing was built from them" % (nrej, nvalid))
     return chk.finish()
 
 
